@@ -27,6 +27,18 @@ def parseSets (toks : List String) : Option (List (List Prefix)) :=
     | g :: gs => if t = "|" then [] :: g :: gs else (t :: g) :: gs) [[]]
   groups.mapM (fun g => g.mapM parsePrefix?)
 
+/-- a set is either prefixes (`addIp`/`addSourceIp`) or `mac0|mac1 <12 hex>*` (`addSourceMac`, 1 = negated rule) -/
+def parseOps (toks : List String) : Option (List SetOp) :=
+  let groups := toks.foldr (fun t acc =>
+    match acc with
+    | [] => [[t]]  -- unreachable
+    | g :: gs => if t = "|" then [] :: g :: gs else (t :: g) :: gs) [[]]
+  groups.mapM fun g =>
+    match g with
+    | "mac0" :: ms => (ms.mapM hexToNat?).map fun l => SetOp.mac l false
+    | "mac1" :: ms => (ms.mapM hexToNat?).map fun l => SetOp.mac l true
+    | _ => (g.mapM parsePrefix?).map SetOp.ip
+
 def handle (line : String) : String :=
   match words line with
   | ["bin", tok] =>
@@ -54,9 +66,9 @@ def handle (line : String) : String :=
     | some ps => "canon=" ++ " ".intercalate ((canonicalize ps).map prefixStr)
     | none => "bad-op"
   | "share" :: rest =>
-    match parseSets rest with
-    | some sets =>
-      let r := Builder.addAll hashLpmSet Builder.empty sets
+    match parseOps rest with
+    | some ops =>
+      let r := Builder.addOps hashLpmSet Builder.empty ops
       "idx=" ++ ",".intercalate (r.2.map toString) ++ " tries=" ++ toString r.1.tries.length
     | none => "bad-op"
   | _ => "bad-op"
